@@ -309,3 +309,142 @@ Example C19_post_example :
   | _, _ => None
   end = Some (3 # 8, 1%nat, [0%nat]).
 Proof. vm_compute. reflexivity. Qed.
+
+(** ---- non-vacuity of the hypotheses (audit) ----
+    Already witnessed above: [C19_box_example] (mk_box = Some, secure_limits = Some: a rotated box with a degenerate dimension),
+    [C19_sample_example] (contains = Some true / Some false: pdf_inside, pdf_outside, weight_of_contained),
+    [C19_fam_example] + [C19_model_ok_fam] (ok (CFam _) = true with members that were constructed).  The remaining ones: *)
+
+Definition aud_rot : mat := [[3 # 5; -4 # 5]; [4 # 5; 3 # 5]].
+Definition aud_rotinv : mat := [[3 # 5; 4 # 5]; [-4 # 5; 3 # 5]].
+Definition aud_region : region_in := {| ri_rot := aud_rot; ri_rotinv := Some aud_rotinv; ri_center := [1; 2]; ri_lims := [(-1, 2); (-1 # 2, 1 # 2)] |}.
+Definition aud_region2 : region_in := {| ri_rot := [[0; 1]; [1; 0]]; ri_rotinv := Some [[0; 1]; [1; 0]]; ri_center := [5; 5]; ri_lims := [(-1, 1); (-1, 1)] |}.
+
+Example C19_contains_loop_nonvacuous :
+  length [0; 1 # 2; -3] = length [(-1, 2); (0, 1); (-3, 0)] /\ inside_loop [0; 1 # 2; -3] [(-1, 2); (0, 1); (-3, 0)] = Some true
+  /\ inside_loop [0; 3 # 2; -3] [(-1, 2); (0, 1); (-3, 0)] = Some false.
+Proof. vm_compute. repeat split. Qed.
+
+(** a rotated (non-identity) constructed box is well-formed; a point of the right length *)
+Example C19_contains_spec_nonvacuous :
+  match mk_boxes [aud_region] with
+  | Some [b] => wf_box b /\ length [1; 2] = b_dim b /\ contains b [8 # 5; 14 # 5] = Some true /\ contains b [1; 4] = Some false
+  | _ => False
+  end.
+Proof. vm_compute. repeat split. Qed.
+
+Example C19_secure_limits_nonvacuous :
+  secure_limits [(-1, 2); (0, 0); (-3, 0)]
+  = Some [(-1, 2); (Qred (- eps_secure * (1 # 2)), Qred (eps_secure * (1 # 2))); (-3, 0)].
+Proof. vm_compute. reflexivity. Qed.
+
+Example C19_box_coords_within_nonvacuous :
+  proper_lims [(-1, 2); (0, 1 # 2)] /\ length [1 # 3; 1] = length [(-1, 2); (0, 1 # 2)]
+  /\ Forall (fun x => 0 <= x /\ x <= 1) [1 # 3; 1] /\ within (box_coords [(-1, 2); (0, 1 # 2)] [1 # 3; 1]) [(-1, 2); (0, 1 # 2)] = true.
+Proof.
+  assert (H1 : proper_lims [(-1, 2); (0, 1 # 2)]) by (repeat constructor).
+  assert (H3 : Forall (fun x => 0 <= x /\ x <= 1) [1 # 3; 1]) by (repeat constructor; vm_compute; discriminate).
+  refine (conj H1 (conj eq_refl (conj H3 _))). apply (C19_box_coords_within [(-1, 2); (0, 1 # 2)] [1 # 3; 1] H1); [reflexivity | exact H3].
+Qed.
+
+(** the bump profile of [C19_line_example]: the objective respects ==, starts below the threshold, positive step *)
+Example C19_line_search_nonvacuous :
+  (forall x y, x == y -> pw [(23 # 10, 0); (4, 2)] 0 x == pw [(23 # 10, 0); (4, 2)] 0 y)
+  /\ pw [(23 # 10, 0); (4, 2)] 0 0 < 1 /\ 0 < 1
+  /\ line_search (pw [(23 # 10, 0); (4, 2)] 0) 1 3 1 5 = (9 # 4, [0; 1; 2; 3; 2; 5 # 2; 2; 9 # 4; 5 # 2])
+  /\ (forall p, In p [0; 1; 2; 3; 2; 5 # 2; 2; 9 # 4; 5 # 2] -> p <= 9 # 4 -> pw [(23 # 10, 0); (4, 2)] 0 p < 1).
+Proof.
+  assert (H1 := pw_proper [(23 # 10, 0); (4, 2)] 0).
+  assert (H2 : pw [(23 # 10, 0); (4, 2)] 0 0 < 1) by reflexivity.
+  assert (H3 : 0 < 1) by reflexivity.
+  refine (conj H1 (conj H2 (conj H3 (conj C19_line_example _)))).
+  destruct (C19_line_search _ _ H1 3%nat 1 5%nat _ _ H2 H3 C19_line_example) as (_ & _ & H). apply H. repeat constructor.
+Qed.
+
+(** the two regions of [C19_post_example]: well-formed, right point length, one distance per region *)
+Example C19_pdf_unnorm_nonvacuous :
+  match mk_boxes [aud_region; aud_region2] with
+  | Some bs =>
+      Forall wf_box bs /\ Forall (fun b => length [8 # 5; 14 # 5] = b_dim b) bs /\ length bs = length [1 # 4; 1 # 8]
+      /\ pdf_unnorm true bs [8 # 5; 14 # 5] [1 # 4; 1 # 8] (1 # 4) (3 # 8) = Some (3 # 8, 1%nat, [0%nat])
+      /\ pdf_unnorm false bs [8 # 5; 14 # 5] [1 # 4; 1 # 8] (1 # 4) (3 # 8) = Some (3 # 4, 2%nat, [0%nat; 1%nat])
+  | None => False
+  end.
+Proof. vm_compute. repeat split; repeat constructor. Qed.
+
+Example C19_objectives_called_nonvacuous :
+  length [true; false; true] = length [1 # 4; 1 # 8; 1] /\ sum_over_regions_indicators 0 [true; false; true] [1 # 4; 1 # 8; 1] (1 # 2) = (1%nat, [0%nat; 2%nat]).
+Proof. vm_compute. repeat split. Qed.
+
+Definition aud_ls_case : ls_case :=
+  {| lc_tbl := [(23 # 10, 0); (4, 2)]; lc_dflt := 0; lc_eps := 1; lc_K := 3; lc_eta := 1; lc_rep_lim := 5; lc_impl_res := 9 # 4;
+     lc_impl_probes := map (fun p => (p, pw [(23 # 10, 0); (4, 2)] 0 p)) [0; 1; 2; 3; 2; 5 # 2; 2; 9 # 4; 5 # 2] |}.
+
+Example C19_ok_sound_line_nonvacuous :
+  ok_ls aud_ls_case = true /\ hd (1, 1) (lc_impl_probes aud_ls_case) = (0, 0) /\ 0 == 0 /\ 0 < lc_eps aud_ls_case /\ 0 < lc_eta aud_ls_case
+  /\ In (3, 2) (lc_impl_probes aud_ls_case)
+  /\ ok_ls {| lc_tbl := []; lc_dflt := 0; lc_eps := 1; lc_K := 3; lc_eta := 1; lc_rep_lim := 5; lc_impl_res := 3; lc_impl_probes := lc_impl_probes aud_ls_case |} = false.
+Proof. vm_compute. repeat split; auto. Qed.
+
+(** a box case as the harness emits it: constructed, widened limits, one drawn sample and two chosen points *)
+Definition aud_box_case : box_case :=
+  {| bc_rot := aud_rot; bc_rotinv := Some aud_rotinv; bc_center := [1; 2]; bc_lims := [(-1, 2); (-1 # 2, 1 # 2)]; bc_tol := 0;
+     bc_impl_ok := true; bc_impl_lims := [(-1, 2); (-1 # 2, 1 # 2)]; bc_impl_vol := 3; bc_impl_rotinv := aud_rotinv;
+     bc_pts := [ {| po_p := [8 # 5; 14 # 5]; po_tol := 0; po_contains := true; po_pdf := 1 # 3 |};
+                 {| po_p := [1; 4]; po_tol := 0; po_contains := false; po_pdf := 0 |} ];
+     bc_smps := [ {| so_u := [1 # 3; 1]; so_p := [3 # 5; 23 # 10]; so_contains := true; so_pdf := 1 # 3 |} ] |}.
+
+Example C19_ok_sound_box_nonvacuous :
+  ok_box aud_box_case = true /\ agree_box aud_box_case = true /\ bc_impl_ok aud_box_case = true /\ bc_smps aud_box_case <> [].
+Proof. vm_compute. repeat split. discriminate. Qed.
+
+(** a history on two regions with evaluations, resets and a weight step; the evaluations are the model's *)
+Definition aud_ev : ev_obs :=
+  {| eo_theta := [8 # 5; 14 # 5]; eo_dists := [1 # 2; 1 # 8]; eo_prior := 3 # 8; eo_tol := 0; eo_impl_val := 0; eo_impl_called := [] |}.
+Definition aud_hw : hw_obs :=
+  {| ho_region := 0; ho_drawn := true;
+     ho_obs := [ {| wo_p := [8 # 5; 14 # 5]; wo_prior := 3 # 8; wo_dist := 1 # 2; wo_impl_w := 0; wo_impl_q := 1 # 3 |} ] |}.
+Definition aud_hist (steps : list hstep) : hist_case :=
+  {| hc_regions := [aud_region; aud_region2]; hc_surrogate := false; hc_eps0 := 1; hc_tol := 0; hc_steps := steps |}.
+Definition aud_steps : list hstep :=
+  [HEval {| eo_theta := [8 # 5; 14 # 5]; eo_dists := [1 # 2; 1 # 8]; eo_prior := 3 # 8; eo_tol := 0; eo_impl_val := 3 # 4; eo_impl_called := [0%nat; 1%nat] |};
+   HReset (1 # 4);
+   HEval {| eo_theta := [8 # 5; 14 # 5]; eo_dists := [1 # 2; 1 # 8]; eo_prior := 3 # 8; eo_tol := 0; eo_impl_val := 3 # 8; eo_impl_called := [0%nat; 1%nat] |};
+   HWeight aud_hw].
+
+Example C19_ok_sound_hist_nonvacuous :
+  ok (CHist (aud_hist aud_steps)) = true /\ agree (CHist (aud_hist aud_steps)) = true
+  /\ match mk_boxes (hc_regions (aud_hist aud_steps)) with
+     | Some bs => Forall wf_box bs /\ Forall (eval_wf bs) [HEval aud_ev; HReset (1 # 4); HEval aud_ev; HWeight aud_hw]
+                  /\ all_decided 0 bs [8 # 5; 14 # 5] = true
+                  /\ model_hist false bs 1 [HEval aud_ev; HReset (1 # 4); HEval aud_ev] = firstn 3 aud_steps
+     | None => False
+     end
+  /\ nth_error (hc_steps (aud_hist aud_steps)) 2 = nth_error aud_steps 2
+  /\ cutoff_at 1 aud_steps 2 = 1 # 4
+  /\ nth_error (hc_steps (aud_hist aud_steps)) 3 = Some (HWeight aud_hw)
+  /\ nth_error (hc_regions (aud_hist aud_steps)) (ho_region aud_hw) = Some aud_region.
+Proof. vm_compute. repeat split; repeat constructor. Qed.
+
+(** Part 1 (mathcomp): a non-identity invertible matrix in every dimension (2 I over the rationals), limits lo = -1 <= hi = 2,
+    draws u = 1/2: the hypotheses of sample_contained / contained_has_coords hold together, in every dimension *)
+Module MxAudit.
+Import mathcomp.ssreflect.all_ssreflect mathcomp.algebra.all_algebra.
+Import GRing.Theory Num.Theory.
+Import Elfi.Num.BoxMx Elfi.Proofs.C19_BoxMx.
+Local Open Scope ring_scope.
+
+Example C19_sample_contained_nonvacuous :
+  forall n : nat,
+    let R : 'M[rat]_n := 2%:R%:M in
+    let lo : 'cV[rat]_n := const_mx (-1) in let hi : 'cV[rat]_n := const_mx 2%:R in let u : 'cV[rat]_n := const_mx (2%:R^-1) in
+    [/\ R \in unitmx, (forall i, lo i 0 <= hi i 0), (forall i, 0 <= u i 0 <= 1)
+      & BoxMx.contains R (const_mx 1) lo hi (BoxMx.sample_point R (const_mx 1) lo hi u)].
+Proof.
+move=> n R lo hi u.
+have HR : R \in unitmx by rewrite /R -scalemx1 unitmxZ ?unitmx1 //.
+have Hl : forall i, lo i 0 <= hi i 0 by move=> i; rewrite !mxE.
+have Hu : forall i, 0 <= u i 0 <= 1 by move=> i; rewrite !mxE.
+by split=> //; apply: Mx.C19_sample_contained.
+Qed.
+End MxAudit.
